@@ -8,8 +8,8 @@ from . import _difffam as FAM
 ID = 'C01'
 LEAN_TARGETS = ['Properties.C01']
 THEOREMS = ['Delta.C01_opcode_replay', 'Delta.C01_opcodes_root_list', 'Delta.C01_opcodes_root_tuple', 'Delta.C01_empty_identity', 'Delta.C01_self', 'Delta.C01_write_read', 'Delta.C01_N_set_in_tuple', 'Delta.C01_N_tuple_in_tuple',
-            'Delta.C01_scalars_roundtrip', 'Delta.C01_root_change_roundtrip']
-RULE = ('tree-shaped pairs (generated values with 1-3 edits, flat lists with insert/delete/replace/move/duplicate, tuples edited in place, numeric arrays) x '
+            'Delta.C01_scalars_roundtrip', 'Delta.C01_root_change_roundtrip', 'Delta.C01_flat_dict_roundtrip']
+RULE = ('tree-shaped pairs (generated values with 1-3 edits, flat lists with insert/delete/replace/move/duplicate, tuples edited in place, numeric arrays, flat dictionaries string -> scalar with keys added / removed / changed in value / changed in type at once) x '
         'zip_ordered_iterables x threshold_to_diff_deeper in {0,0.33,0.9} x verbose_level in {0,1,2} x view in {text,tree} x always_include_values, mutate=False; '
         'chains of <= 6 successive edits; ignore_order+report_repetition on lists of distinct scalars. t1 + Delta(DeepDiff(t1,t2)) is compared with t2 (== plus container '
         'types), inputs are snapshotted; the delta payload and the result are compared with the Lean model. distinct = distinct (t1, t2, config); non-trivial = t1 != t2')
@@ -182,6 +182,24 @@ def run(ctx, impl_only=False):
         w = ctx.rng.choice([lambda x: x, lambda x: [x, 0], lambda x: {'t': x}])
         pairs.append((w(t), w(u)))
     pairs += FAM.rich_pairs(ctx, n // 3)           # Decimal, bytes, aware datetimes, date, time, timedelta, UUID, complex, frozenset leaves
+    # flat dictionaries (the domain of C01_flat_dict_roundtrip): string keys, scalar values, keys added / removed / changed in value / changed in type at once
+    fk = ['a', 'b', 'c', 'dd', 'x y', 'old_value', 'new_value', '', 'A', '_p', '1', "q'r"]
+    fv = [None, True, False, 0, 1, -3, 2.5, 0.0, 'a', '', 'line1\nline2', b'x', b'', 10**20]
+    for _ in range(n // 2):
+        d1 = {k: ctx.rng.choice(fv) for k in ctx.rng.sample(fk, ctx.rng.randint(0, 7))}
+        d2 = dict(d1)
+        for k in list(d2):
+            c = ctx.rng.random()
+            if c < 0.25:
+                del d2[k]
+            elif c < 0.6:
+                d2[k] = ctx.rng.choice(fv)
+        for k in ctx.rng.sample(fk, ctx.rng.randint(0, 3)):
+            d2.setdefault(k, ctx.rng.choice(fv))
+        if ctx.rng.random() < 0.3:
+            d2 = dict(sorted(d2.items(), key=lambda kv: ctx.rng.random()))
+        pairs.append((d1, d2))
+        ctx.count('flat_dict_pairs')
     lines, metas = [], []
     nsp = len(special_pairs())
     for i, (t1, t2) in enumerate(pairs):
